@@ -17,7 +17,8 @@
                                   hypothesis is not trivial).
    Skipped:  c12_message_values (no hypotheses).
    Extra:    c12_radiotap_info_is_decoded (the rt_info used is what parse_radiotap_info returns),
-             c12_odd_* : what the recognition does NOT look at (see the comments there). *)
+             c12_odd_* : what the recognition does NOT look at (see the comments there),
+             c12_llc_octets_are_examined : since F49 the LLC octets AA AA 03 are required. *)
 From Coq Require Import ZArith Lia List Bool.
 From LW Require Import Base.Bytes Model.Radiotap Model.Frame Model.Eapol Spec.FrameSpec Spec.EapolSpec
   Spec.CRCSpec Properties.Properties_C12.
@@ -210,10 +211,10 @@ Proof.
 Qed.
 
 (* ---------- what recognition does not look at ---------- *)
-(* (1) Neither the LLC octets AA AA 03, nor the EAPOL packet type, nor the descriptor type are examined:
-   an EAP-Packet (type 0) with EtherType 0x888E and a 99-byte payload under LLC octets 01 02 03 is
-   "a handshake", and since its bytes 13..14 happen to be 00 8A it is "message 1". *)
-Definition eap_packet_bytes := hdr_from_ap 4 ++ [1; 2; 3; 0; 0; 0; 136; 142] ++ [2; 0; 0; 99] ++
+(* (1) Neither the EAPOL packet type nor the descriptor type are examined: an EAP-Packet (type 0) with
+   EtherType 0x888E and a 99-byte payload under a proper LLC/SNAP header AA AA 03 00 00 00 is "a handshake",
+   and since its bytes 13..14 happen to be 00 8A it is "message 1". *)
+Definition eap_packet_bytes := hdr_from_ap 4 ++ [170; 170; 3; 0; 0; 0; 136; 142] ++ [2; 0; 0; 99] ++
   [1; 0; 138] ++ bytes_from 3 96.
 Definition f_eap : frame := Eval vm_compute in classified eap_packet_bytes None.
 Lemma ok_eap : frame_ok f_eap. Proof. by_classification eap_packet_bytes. Qed.
@@ -221,6 +222,35 @@ Example c12_odd_eap_packet_is_m1 :
   check_wpa_handshake f_eap = Done (Ok 1) /\ check_wpa_message f_eap = Done 1.
 Proof.
   rewrite (c12_recognise_iff _ ok_eap), (c12_message _ ok_eap). vm_compute. split; reflexivity.
+Qed.
+(* (1') The LLC octets ARE examined (F49): the same payload under LLC octets 01 02 03, and the real M1 with
+   any one of DSAP / SSAP / control altered, are not handshakes (and nothing is extracted from them);
+   check_wpa_message, which does not ask for a handshake (see (2)), still numbers the former "message 1". *)
+Definition eap_badllc_bytes := hdr_from_ap 4 ++ [1; 2; 3; 0; 0; 0; 136; 142] ++ [2; 0; 0; 99] ++
+  [1; 0; 138] ++ bytes_from 3 96.
+Definition set_byte (i : nat) (v : byte) (l : list byte) : list byte := firstn i l ++ v :: skipn (S i) l.
+Definition m1_baddsap_bytes := hdr_from_ap 1 ++ set_byte 0 171 m1_body.
+Definition m1_badssap_bytes := hdr_from_ap 1 ++ set_byte 1 171 m1_body.
+Definition m1_badctl_bytes := hdr_from_ap 1 ++ set_byte 2 19 m1_body.
+Definition f_eap_badllc : frame := Eval vm_compute in classified eap_badllc_bytes None.
+Definition f_m1_baddsap : frame := Eval vm_compute in classified m1_baddsap_bytes None.
+Definition f_m1_badssap : frame := Eval vm_compute in classified m1_badssap_bytes None.
+Definition f_m1_badctl : frame := Eval vm_compute in classified m1_badctl_bytes None.
+Lemma ok_eap_badllc : frame_ok f_eap_badllc. Proof. by_classification eap_badllc_bytes. Qed.
+Lemma ok_m1_baddsap : frame_ok f_m1_baddsap. Proof. by_classification m1_baddsap_bytes. Qed.
+Lemma ok_m1_badssap : frame_ok f_m1_badssap. Proof. by_classification m1_badssap_bytes. Qed.
+Lemma ok_m1_badctl : frame_ok f_m1_badctl. Proof. by_classification m1_badctl_bytes. Qed.
+Example c12_llc_octets_are_examined :
+  check_wpa_handshake f_eap_badllc = Done (Err (-22)) /\ check_wpa_message f_eap_badllc = Done 1 /\
+  check_wpa_handshake f_m1_baddsap = Done (Err (-22)) /\ check_wpa_handshake f_m1_badssap = Done (Err (-22)) /\
+  check_wpa_handshake f_m1_badctl = Done (Err (-22)) /\
+  get_wpa_data f_m1_badctl = Done (Err (-22)) /\ get_wpa_key_data_length f_m1_badctl = Done (-22) /\
+  zlen (f_body f_m1_badctl) = 129 /\ zskipn 3 (f_body f_m1_badctl) = zskipn 3 (f_body f_m1).
+Proof.
+  rewrite (c12_recognise_iff _ ok_eap_badllc), (c12_message _ ok_eap_badllc),
+    (c12_recognise_iff _ ok_m1_baddsap), (c12_recognise_iff _ ok_m1_badssap), (c12_recognise_iff _ ok_m1_badctl),
+    (c12_extract_exact _ ok_m1_badctl), (c12_key_data_length _ ok_m1_badctl).
+  vm_compute. repeat split; reflexivity.
 Qed.
 (* (2) check_wpa_message does not ask for a handshake at all: any classified frame with a body of at least
    107 bytes is numbered by its bytes 13..14; here a QoS data frame carrying IPv4 (EtherType 0x0800). *)
